@@ -309,6 +309,15 @@ pub fn run_scenario(sc: &Scenario) -> Outcome {
 
     // ---- triage of stalls under a liberal executor (not a verdict)
     let pend = pending_ops(0);
+    if quiescent {
+        // the state both endpoints went to sleep in is judged by the snapshot monitors (C03: no credit owed)
+        chook.probe_quiescent();
+        shook.probe_quiescent();
+        if pend == 0 {
+            sim::wake_all();
+            let _ = sim::run(200_000);
+        }
+    }
     if quiescent && pend > 0 {
         sim::wake_all();
         let _ = sim::run(200_000);
@@ -375,6 +384,7 @@ pub fn run_scenario(sc: &Scenario) -> Outcome {
         let st = hook.0.borrow();
         violations.extend(st.violations.iter().cloned());
         stats.add("snapshots", st.count);
+        stats.add("quiescence_probes", st.probes_done);
         stats.max(&format!("max.{}.slab", name), st.max_slab as u64);
         stats.max(&format!("max.{}.recv_buffer", name), st.max_recv_buffer as u64);
         stats.max(&format!("max.{}.send_buffer", name), st.max_send_buffer as u64);
